@@ -18,7 +18,7 @@ from ..fscm import FSCM, FWorld
 from ..graphs import G, enum_L, enum_O
 from ..runner import Res, fkey_of
 from ..semantics import Malformed, MultiWorld, Undefined, compile_expr
-from ..y0util import snapshot, to_y0
+from ..y0util import V, snapshot, to_y0
 
 TITLE = "ID* estimands equal the probability of the counterfactual event"
 
@@ -39,10 +39,65 @@ def event_space(g: G, tier):
     return events(g.nodes, 2, 2, 1)
 
 
+BUILD_NAMES = ("A", "B", "C")
+
+
+def build_ops():
+    return [("d", u, v) for u in BUILD_NAMES for v in BUILD_NAMES if u != v] + [("b", u, v) for u, v in itt.combinations(BUILD_NAMES, 2)]
+
+
 def shards(tier):
     n = len(_universe(tier))
     idx = sorted(range(n), key=lambda i: -len(_universe(tier)[i].nodes))
-    return [(i, i + 1) for i in idx]
+    return [(i, i + 1) for i in idx] + [("build", i) for i in range(len(build_ops()))]
+
+
+def canonical_graph(nodes, di, bi) -> G:
+    """The reference graph in the same presentation as the enumerated universes (so that input identities coincide)."""
+    nodes = tuple(sorted(nodes))
+    di = tuple(sorted(di, key=lambda e: (min(e), max(e))))
+    bi = tuple(sorted(tuple(sorted(e)) for e in bi))
+    return G(nodes, di, bi)
+
+
+def explore_builder(res: Res, first, tier, seed):
+    """Every sequence of 3 edge insertions on ONE live graph object, nodes appearing as the edges mention them; after
+    every insertion ID* is asked for every all-'-' event of up to two items (up to one subscript each) on that object."""
+    from y0.graph import NxMixedGraph
+
+    from ..graphs import is_acyclic
+
+    ops = build_ops()
+    for tail in itt.product(range(len(ops)), repeat=2):
+        seq = (first,) + tail
+        y = NxMixedGraph()
+        nodes, di, bi, hist = [], [], [], []
+        for k in seq:
+            kind, u, v = ops[k]
+            hist.append([kind, u, v])
+            for n in (u, v):
+                if n not in nodes:
+                    nodes.append(n)
+            if kind == "d":
+                if (u, v) in di or not is_acyclic(nodes, di + [(u, v)]):
+                    break
+                di.append((u, v))
+                y.add_directed_edge(V(u), V(v))
+            else:
+                if tuple(sorted((u, v))) in bi:
+                    break
+                bi.append(tuple(sorted((u, v))))
+                y.add_undirected_edge(V(u), V(v))
+            g = canonical_graph(nodes, di, bi)
+            m = TwoWitness(FSCM(g, salt=f"f{seed}"), FSCM(g, salt=f"g{seed}"))
+            before = len(res.violations)
+            for items in events(g.nodes, 2, 1, 1):
+                if any(star or any(s for _, s in subs) for _, subs, star in items):
+                    continue  # all-'-' events only
+                case = {"graph": g.to_json(), "event": event_json(items), "builder_ops": list(hist)}
+                check_event(res, g, y, m, m, items, case)
+            if len(res.violations) > before:
+                break
 
 
 def describe(tier):
@@ -54,7 +109,8 @@ def describe(tier):
             else "graphs L(1..3) all labelled ADMGs (single items with up to 3 subscripts, pairs with up to 2 each) + O(4, <=3 "
             "edges) (singles up to 2, pairs up to 1)"
         )
-        + "; subscripts may include the variable itself; values - and +; every base value assignment",
+        + "; subscripts may include the variable itself; values - and +; every base value assignment; plus every sequence of 3 "
+        "edge insertions on one live graph object with ID* asked for all all-'-' events after every insertion",
         "rule": "state = (graph, event); transition = one id_star call whose result is evaluated on the functional witness "
         "SCM and compared with the probability of the conjunction obtained by enumerating all exogenous settings",
         "assumptions": [
@@ -337,8 +393,11 @@ def explore_graph(res: Res, g: G, tier, seed, only=None):
 
 
 def work(shard, tier, seed):
-    lo, hi = shard
     res = Res()
+    if shard[0] == "build":
+        explore_builder(res, shard[1], tier, seed)
+        return res
+    lo, hi = shard
     for g in _universe(tier)[lo:hi]:
         explore_graph(res, g, tier, seed)
     return res
@@ -348,5 +407,9 @@ def replay(case, clause=None):
     import os
 
     res = Res()
+    if "builder_ops" in case:
+        ops = build_ops()
+        explore_builder(res, ops.index(tuple(case["builder_ops"][0])), "quick", int(os.environ.get("VERIF_SEED", "0") or 0))
+        return [v for v in res.violations if v["input"].get("builder_ops") == case["builder_ops"]][:1]
     explore_graph(res, G.from_json(case["graph"]), "thorough", int(os.environ.get("VERIF_SEED", "0") or 0), only=event_from_json(case["event"]))
     return [v for v in res.violations if clause is None or v["clause"] == clause]
